@@ -78,6 +78,9 @@ pub fn order_name(o: Order) -> &'static str {
         APP => "APP",
         CBV => "CBV",
         HAP => "HAP",
+        // a new strategy added to the crate is code no property speaks about (keeps the harness compiling)
+        #[allow(unreachable_patterns)]
+        _ => "OTHER",
     }
 }
 
